@@ -703,6 +703,10 @@ func (st *tunnelClientStream) SendMsg(m interface{}) error {
 	st.writeMu.Lock()
 	defer st.writeMu.Unlock()
 
+	if st.halfClosed {
+		// no request data may follow the half-close frame
+		return status.Errorf(codes.Internal, "SendMsg called after CloseSend")
+	}
 	if !st.isClientStream && st.numSent == 1 {
 		return status.Errorf(codes.Internal, "Already sent response for non-server-stream method %s", st.method)
 	}
